@@ -109,6 +109,11 @@ MUTANTS = [
     ("system-remove-groups-keeps-memo", "C14", "pint/facets/system/objects.py",
      "        self._used_groups -= set(group_names)\n\n        self.invalidate_members()\n",
      "        self._used_groups -= set(group_names)\n", r"System.remove_groups.*memo_dropped"),
+    ("quantity-deepcopy-shares-units", "C18", "pint/facets/plain/quantity.py",
+     "copy.deepcopy(self._magnitude, memo), copy.deepcopy(self._units, memo)", "copy.deepcopy(self._magnitude, memo), self._units",
+     r"PlainQuantity.__deepcopy__.*fresh"),
+    ("unit-copy-returns-self", "C18", "pint/facets/plain/unit.py",
+     "        ret = self.__class__(self._units)\n        return ret\n", "        ret = self\n        return ret\n", r"PlainUnit.__copy__.*fresh"),
     ("system-add-groups-replaces-set", "C14", "pint/facets/system/objects.py",
      "        self._used_groups |= set(group_names)\n", "        self._used_groups = set(group_names)\n", r"System.add_groups.*used_groups"),
 ]
